@@ -380,6 +380,27 @@ int main(int argc, char **argv) {
           F.removeFnAttr(Attribute::OptimizeNone);
           F.addFnAttr(Attribute::AlwaysInline);
         }
+      // thin wrappers around the tag check (a helper that ends a decrypt function with generate_tag + check_tag): the call-site rules
+      // are about what reaches tinyjambu_aead_check_tag from the public decrypt functions, so a non-local function of the library
+      // that calls it and is itself called from the library is inlined into its callers (its external definition stays)
+      for (Function &F : *M) {
+        if (F.isDeclaration() || F.hasLocalLinkage() || F.getName() == "tinyjambu_aead_check_tag") continue;
+        bool callsCT = false, isCalled = false;
+        for (BasicBlock &BB : F)
+          for (Instruction &I : BB)
+            if (auto *CB = dyn_cast<CallBase>(&I))
+              if (Function *Cal = CB->getCalledFunction())
+                if (Cal->getName() == "tinyjambu_aead_check_tag") callsCT = true;
+        if (!callsCT) continue;
+        for (User *U : F.users())
+          if (auto *CB = dyn_cast<CallBase>(U))
+            if (CB->getCalledFunction() == &F) isCalled = true;
+        if (isCalled && !F.hasAddressTaken()) {
+          F.removeFnAttr(Attribute::NoInline);
+          F.removeFnAttr(Attribute::OptimizeNone);
+          F.addFnAttr(Attribute::AlwaysInline);
+        }
+      }
       MPM.addPass(AlwaysInlinerPass(false));
       MPM.addPass(GlobalDCEPass());
     }
